@@ -14,8 +14,11 @@ from pathlib import Path
 from typing import Any, Callable
 
 VERIF = Path(__file__).resolve().parent.parent
-EVIDENCE = VERIF / "evidence"
-REPLAYS = VERIF / "replays"
+# VERIF_OUT_DIR is a developer aid (tools/seedtest.py runs checks against scratch copies of the repo in
+# parallel without touching the committed evidence); registered commands never set it.
+_OUT = Path(os.environ["VERIF_OUT_DIR"]) if os.environ.get("VERIF_OUT_DIR") else VERIF
+EVIDENCE = _OUT / "evidence"
+REPLAYS = _OUT / "replays"
 KNOWN = VERIF / "known_findings.json"
 
 
